@@ -221,6 +221,11 @@ class RegionMask:
                 weighted_cutout = cutout * self.data
 
             # fill values outside of the mask but within the bounding box
+            if (isinstance(weighted_cutout, u.Quantity)
+                    and not isinstance(fill_value, u.Quantity)):
+                # as in cutout(), a plain fill value is taken to be in
+                # the unit of the data
+                fill_value = fill_value << weighted_cutout.unit
             weighted_cutout[self._mask] = fill_value
 
             return weighted_cutout
